@@ -1146,6 +1146,22 @@ impl<const N: usize> IoEx<N> {
                 (*b == *c, *c == *b, *b == want[..], b.cmp(c), h1.finish() == h2.finish(), dbg && i8ok)
             });
             let _ = crate::alloc::take_op_allocs();
+            // ---- C17 for the comparison / hashing impls on one-byte elements: a window of its
+            // own in which the harness allocates nothing (no Vec, no format!, no Box), so every
+            // allocation counted in it was made by the crate
+            let r2 = window(|| {
+                let mut h = crate::elem::RecHasher::new();
+                b.hash(&mut h);
+                let e = *b == *c;
+                let s = *b == want[..];
+                let o = b.cmp(c);
+                let p = b.partial_cmp(c);
+                (h.finish(), e, s, o, p)
+            });
+            let cmp_allocs = crate::alloc::take_op_allocs();
+            if r2.is_ok() && cmp_allocs > 0 {
+                self.fail(cls::ALLOC, format!("hash / == / cmp of a byte buffer (start={} size={} N={}) performed {} heap allocation(s) of its own", self.buf.verif_layout().0, self.buf.len(), N, cmp_allocs));
+            }
             match r {
                 Ok((e1, e2, e3, ord, h, d)) => {
                     if !(e1 && e2 && e3 && ord == std::cmp::Ordering::Equal && h && d) {
